@@ -94,7 +94,7 @@ def run(ctx: Ctx) -> None:
         if not ok:
             continue
         want = eta / math.sqrt(depth) if depth else eta
-        mag_ok = torch.allclose(delta.abs(), torch.full_like(delta, want), rtol=1e-9, atol=0.0)
+        mag_ok = torch.allclose(delta.abs(), torch.full_like(delta, want), rtol=1e-7, atol=0.0)
         sign_ok = bool((torch.sign(delta) == -torch.sign(g)).all())
         if not (mag_ok and sign_ok):
             ctx.violation(f"C12:{kind}:move", "first Adam step does not move every output by eta/sqrt(depth) against the gradient sign",
@@ -120,5 +120,5 @@ def run(ctx: Ctx) -> None:
                 ctx.disagree("step_size", key, [s, l], got, THMS)
                 continue
             m = b2f(s["fwd"]) * (eta * b2f(l["scale"])) * n
-            if not rel_close(m, got, 1e-9):
+            if not rel_close(m, got, 1e-7):
                 ctx.disagree("step_size", key, m, got, THMS)
